@@ -37,6 +37,10 @@ class MGen(object):
     def var(self):
         return self.rng.choice(self.names)
 
+    def bvar(self):
+        """a name to bind: now and then a builtin's name (module and class bodies keep seeing the builtin until then)"""
+        return self.rng.choice(BUILTINS) if self.rng.random() < 0.07 else self.var()
+
     def visible(self):
         out = set()
         for x in self.seen:
@@ -118,7 +122,7 @@ class MGen(object):
         self.nstmt += 1
         r = self.rng.random()
         if depth <= 0 or r < 0.24:
-            return {'k': 'assign', 'name': self.bound(self.var()), 'site': self.site()}
+            return {'k': 'assign', 'name': self.bound(self.bvar()), 'site': self.site()}
         if r < 0.46:
             return {'k': 'read', 'atoms': self.atoms(1, 2)}
         if r < 0.56:
@@ -132,7 +136,7 @@ class MGen(object):
         if r < 0.69 and self.ndec < 4:
             self.ndec += 2
             it = self.atoms(0, 1)
-            return {'k': 'for', 'name': self.bound(self.var()), 'site': self.site(), 'iter': it,
+            return {'k': 'for', 'name': self.bound(self.bvar()), 'site': self.site(), 'iter': it,
                     'body': self.block(kind, depth - 1, enclosing, 1, 2)}
         if r < 0.83:
             ps = self.params()
